@@ -11,7 +11,10 @@ keys and values are numbers (key = feature*8 + tag index); a world is `{k=v,k=v}
   worlds [wid:{…} …]     => [wid:{…} …]          (the view the next round starts from)
   round [req …]          => [wid:{…} …] | hang | race | crash | fatal
 requests: `q<wid>` evaluate (non-change) · `d<wid>` delete-world · `l` list-worlds ·
-          `c<wid>(rule;rule;…)` evaluate to a change, rule = [`<k>?` present | `<k>!` absent] (`+k=v` | `-k`)
+          `c<wid>(rule;rule;…)` evaluate to a change, rule = [`<k>?` present | `<k>!` absent] (`+k=v` | `-k` | `~k`);
+          `~k` is an element that FAILS when applied (add-tag / remove-tag on a missing feature, an invalid
+          feature): `Apply` stops there with an error, what was applied before stays (a merged change with a
+          failing part applies nothing and is written with the failing rule first)
 
 All requests of a round are issued concurrently.  Predicate: the final view equals `serialRun` of the
 requests in SOME order (`serializable`), and the round ends (`no-deadlock`), without a crash or a data race
@@ -56,12 +59,13 @@ def parseWrite (s : String) : Option Write :=
   match s.toList with
   | '+' :: rest => (parseKV (String.ofList rest)).map fun (k, v) => Write.set k v
   | '-' :: rest => (String.ofList rest).toNat?.map Write.del
+  | '~' :: rest => (String.ofList rest).toNat?.map Write.fail
   | _ => none
 
 def parseRule (s : String) : Option Rule :=
   let cs := s.toList
-  let g := cs.takeWhile (fun c => c != '+' && c != '-')
-  let w := cs.dropWhile (fun c => c != '+' && c != '-')
+  let g := cs.takeWhile (fun c => c != '+' && c != '-' && c != '~')
+  let w := cs.dropWhile (fun c => c != '+' && c != '-' && c != '~')
   match parseWrite (String.ofList w) with
   | none => none
   | some wr =>
